@@ -3,7 +3,7 @@ claim("C09", "proof", "flow-sensitive must-lockset analysis over go/ssa CFG + ca
       "Proof of the mutual-exclusion / atomic-section clause: every access to guarded Cache state, every Store call and every callback call "
       "happens with the mutex held for the whole of a single critical section per method; nobody else can reach that state; no re-entry; "
       "no goroutines. This gives race freedom and linearizability relative to the sequential behaviour for every schedule, because the argument "
-      "is schedule-independent. It A Lock/Unlock whose mutex is addressed through a by-value copy of the cache (value receiver, local copy) is not an operation on the shared mutex and is reported. does NOT decide the sequential LRU behaviour (C08) or liveness.",
+      "is schedule-independent. It A Lock/Unlock whose mutex is addressed through a by-value copy of the cache (value receiver, local copy) is not an operation on the shared mutex and is reported. An exported method that leaves the locking to a callee makes exactly one lock-acquiring call, not in a loop; closures and helpers that only relay to a function touching guarded state take part in the entry-lockset fixpoint. does NOT decide the sequential LRU behaviour (C08) or liveness.",
       BASE_NOTE + " Assumes callbacks do not re-enter the cache, a Store is not shared between caches, sync.Mutex semantics.",
       "DESIGN.md section 3, C09")
 claim("C16", "model_checking", "table extraction from the typed AST + exhaustive product construction against a POSIX reference transducer; SSA rules tie the interpreter loop to the table",
@@ -11,14 +11,14 @@ claim("C16", "model_checking", "table extraction from the typed AST + exhaustive
       "per-action effects of Scanner.Next derived from what each arm does, class meaning derived from the bytes assigned to each class, end-of-input verdict, "
       "Complete) with an independently written POSIX reference transducer: every reachable (implementation state, reference state, class) triple and every end-of-input verdict "
       "is compared, which covers every input string. Structural rules add chunking independence (input only through ReadByte), permanent stop after end of input, Rest handing back "
-      "the same buffered reader, stoppable Each, pooled scanner reset. Does NOT decide agreement with a real /bin/sh (nothing is executed); the reference transducer is trusted.",
+      "the same buffered reader, stoppable Each, pooled scanner reset. (R-RESULT-FRESH) the token slice Scanner.Split returns is allocated by that call and not kept in the pooled scanner. Does NOT decide agreement with a real /bin/sh (nothing is executed); the reference transducer is trusted.",
       BASE_NOTE + " traces_validated_against_impl is 0 by construction of this family: the model IS the source table, linked to the interpreter by rule R-FST-INTERP.",
       "DESIGN.md section 3, C16")
 claim("C05", "other", "affine index-form extraction from go/ssa + must-pass-through path rules",
       "Decides two necessary structural conditions of heap order named in the property's rationale: (1) the parent index used by sift-up and the child indices used by "
       "sift-down are mutually inverse (extracted as affine forms from the SSA; arithmetic on the constants), the children form one block and the root is nobody's child; "
       "(2) a slot overwritten at an arbitrary offset (Remove(i)) is sifted down and, unless that moved it, sifted up on every path; plus every bulk heapify loop covers all "
-      "internal nodes down to the root, and Each is stoppable. Today's tree violates (1): known finding F1 (see known_findings.json). (R-CMP-SIGN) comparison results are tested by sign only, also through a less(i, j) helper; (R-REORDER-INSTALLS) Reorder stores its argument as the comparison on every path; (R-SORT-INPLACE) nothing Sort reaches replaces the queue's buffer by a fresh allocation, because Sort's result is what is left in its argument. Does NOT decide that Front/Pop is "
+      "internal nodes down to the root, and Each is stoppable. Today's tree violates (1): known finding F1 (see known_findings.json). (R-CMP-SIGN) comparison results are tested by sign only, also through a less(i, j) helper; (R-REORDER-INSTALLS) Reorder stores its argument as the comparison on every path; (R-SORT-INPLACE) nothing Sort reaches replaces the queue's buffer by a fresh allocation, because Sort's result is what is left in its argument. (R-POP-CONSERVES) the removal helper writes the tail element into slot i before cutting the tail slot off; (R-LEN-EFFECT) a symbolic length-effect analysis: every path of Add/Pop/Remove/Clear/Set that rewrites the buffer leaves its length at L0+1 / L0−1 / 0 / len(vs), other methods leave it unchanged; (R-SORT-SHORTCUT) a sortedness shortcut in Sort uses the caller's comparison. Does NOT decide that Front/Pop is "
       "minimal for every history, multiset conservation, or Sort's result.",
       BASE_NOTE + " Sift functions are located by role (loop + exchange call), names are not used.",
       "DESIGN.md section 3, C05")
@@ -26,14 +26,14 @@ claim("C06", "other", "must-pass-through pairing of slot writes with position re
       "Decides: every write of a heap slot in heapq.Queue (element store, append, copy) is followed on every path by a position report for that very slot with the element "
       "loaded after the write, or the slot is truncated away; Add returns sift-up's result on the append index; the LRU store's key->offset index has exactly the writers "
       "{update callback with its own arguments, Store with Add's result} and deleters paired with the heap removal, and the callback is installed before the store escapes. "
-      "Does NOT decide that reported offsets are right for every history (follows from these rules plus array semantics, not checked).",
+      "After a bulk write no return is reachable without entering the reporting loop. Does NOT decide that reported offsets are right for every history (follows from these rules plus array semantics, not checked).",
       BASE_NOTE,
       "DESIGN.md section 3, C06")
 claim("C10", "other", "typestate dataflow (cursor validation), store classification with must-precede invalidation, mirror pairing, must-pass-through",
       "Decides structural necessary conditions: in package mlink every access to the links through a cursor's current position is preceded on all paths by a validation of that "
       "very position (so a stale cursor panics, never hangs or edits), the validator tests exactly the marker the detach sites write, every link store that drops entries is "
       "preceded by their invalidation, mlink.Queue re-seats its cached tail cursor whenever the entry it hangs on can be detached and pairs each size change with exactly one "
-      "insert/remove/clear; in package ring every next-link write has its mirror prev-link write in the same block; Each iterators stop when told. Does NOT decide that the "
+      "insert/remove/clear; in package ring every next-link write has its mirror prev-link write in the same block; Each iterators stop when told. (R-NOOP-GUARD, package ring) a no-op exit taken on x.f == v is justified only by a store of v into x.f in the same function; (R-LEN-EFFECT, package stack) every path of Push/Add/Pop/Clear that rewrites the list leaves its length at L0+1 / L0−1 / 0. Does NOT decide that the "
       "resulting sequences or cycles are the documented ones, Stack behaviour beyond Each, or termination of ring walks.",
       BASE_NOTE + " Assumes iteration callbacks do not mutate the container.",
       "DESIGN.md section 3, C10")
@@ -41,20 +41,20 @@ claim("C17", "other", "provenance of slice expressions (3-index clip rule), non-
       "Decides structural clauses of the property: every subslice of the input handed out by Partition/Chunks/Batches is capacity-clipped (Max == High); no integer division or "
       "remainder in package slice can have a zero divisor (this is the 'never panics for an allowed argument' clause for the arithmetic faults; it found Batches(empty, n>0), "
       "repaired in /repo 2160ede); At/PtrAt index only under a successful strict range check; Partition writes its input only by exchange, so it stays a permutation. "
-      "A subslice bound derived from cap(input) is a violation of the clip rule. Does NOT decide which elements end up where (Partition order, Rotate's permutation, chunk/batch lengths, Head/Tail/Stripe contents).",
+      "A subslice bound derived from cap(input) is a violation of the clip rule. (R-ALLOC-BOUNDED) an allocation sized by a bare count parameter is reached only with the count bounded by a length (at the site or at every call site of an unexported helper). Does NOT decide which elements end up where (Partition order, Rotate's permutation, chunk/batch lengths, Head/Tail/Stripe contents).",
       BASE_NOTE,
       "DESIGN.md section 3, C17")
 claim("C12", "other", "provenance (origin) analysis of every write event with callee mutation summaries; strictness/lean agreement read from the SSA",
       "Decides: none of LCS/LCSFunc/LIS/LISFunc/LNDS/LNDSFunc/bisectRight/EditScript/editScriptFunc nor their closures can write through an input slice (every element store, "
       "copy destination, append base, clear and mutating-callee argument has a provenance of allocations made in the function); and in LISFunc/LNDSFunc the strictness of the "
       "fast-path comparison agrees with the lean of the binary search used (LNDS: >= with right-leaning search read from bisectRight's body; LIS: > with left-leaning "
-      "slices.BinarySearchFunc) - the only documented difference between the two. (R-CMP-SIGN) comparison results are tested by sign only; the strict variant takes no shortcut on slices.IsSorted*; (R-SIBLING-GUARD) where an element of one input is compared with an element of the other, the dominating guards constrain both indices or neither. Does NOT decide that the results are subsequences of maximum length.",
+      "slices.BinarySearchFunc) - the only documented difference between the two. (R-CMP-SIGN) comparison results are tested by sign only; the strict variant takes no shortcut on slices.IsSorted*; (R-SIBLING-GUARD) where an element of one input is compared with an element of the other, the dominating guards constrain both indices or neither. LCS hands its two inputs to LCSFunc as they are. Does NOT decide that the results are subsequences of maximum length.",
       BASE_NOTE + " Standard-library mutators are a frozen table; user comparison callbacks are outside the rule.",
       "DESIGN.md section 3, C12")
 claim("C18", "other", "fresh-and-non-nil provenance analysis with per-function summaries; guarded-update path rule",
       "Decides: every set returned by New, NewSize, Clone, Intersect, Range, Keys and Values is allocated inside the call, provably non-nil, and never a parameter (so it cannot "
       "alias an argument); AddAll on a nil receiver stores a clone, not its argument; in pointer-receiver methods every update of *s is preceded on all paths by *s != nil or by "
-      "storing a fresh map. (R-LIST-WHOLE) a variadic list of items is never re-sliced to an upper bound other than its own length: every listed item counts. Does NOT decide the set-theoretic answers of Intersects/IsSubset/Equals/HasAll/HasAny/Intersect, Pop, or Slice/Append contents.",
+      "storing a fresh map. (R-LIST-WHOLE) a variadic list of items is never re-sliced to an upper bound other than its own length: every listed item counts. (R-ARG-IMMUTABLE) map updates and deletes go through the receiver or a fresh map, never through an argument set. Does NOT decide the set-theoretic answers of Intersects/IsSubset/Equals/HasAll/HasAny/Intersect, Pop, or Slice/Append contents.",
       BASE_NOTE,
       "DESIGN.md section 3, C18")
 claim("C19", "other", "one-variable interval abstract interpretation (|buf|-cap) with transfer functions derived from mapset's bodies; store-shape and control-dependence rules",
@@ -62,7 +62,7 @@ claim("C19", "other", "one-variable interval abstract interpretation (|buf|-cap)
       "widening (it found the single-pass halving defect, repaired in /repo 5fe64df); p is only ever set to MaxUint64 or shifted right and Count is Len x 2^LeadingZeros64(p), "
       "so the scale never decreases before Reset; Reset empties the buffer together with p := MaxUint64 (both directions); removals and halvings are control-dependent on "
       "p < MaxUint64 or Len >= cap, so below capacity the buffer is the exact set; and two structural necessary conditions of unbiasedness: every path through Add re-decides "
-      "the value's membership (removes or adds it), and every removal pass is followed by a halving of p before the next pass or return. Does NOT decide unbiasedness itself "
+      "the value's membership (removes or adds it), and every removal pass is followed by a halving of p before the next pass or return. (R-PASS-COMPLETE) a removal pass over the buffer has no exit but exhaustion; (R-SEED-FRESH) each counter's random source is seeded from a local buffer filled by crypto/rand in the constructor call. Does NOT decide unbiasedness itself "
       "(a statement about a probability distribution) or the p = 0 corner.",
       BASE_NOTE + " Assumes NewCounter is called with size >= 1.",
       "DESIGN.md section 3, C19")
@@ -70,7 +70,7 @@ claim("C20", "other", "linear-form + congruence reasoning over induction variabl
       "Decides: each unsafe 8-byte access in mbits (Zero, LeadingZeroes, TrailingZeroes) satisfies 0 <= i and i+8 <= len(data) for every length - index expressions are reduced "
       "to linear forms over n and n&^7 with congruences mod 8 from the loop step and bounds from initial values and dominating guards ('never reading or writing outside it'); "
       "Trunc returns s or a prefix s[:h] with h reached from n by decrements only, under n < len(s), and every s[h-1] is guarded by h > 0 (prefix of at most n bytes, no panic); "
-      "every value CompareNatural returns is a cmp.Compare result, hence in {-1,0,1}. Does NOT decide that the zero counts are right, UTF-8 validity, the 'at most 4 bytes "
+      "every value CompareNatural returns is a cmp.Compare result, hence in {-1,0,1}. (R-CLASS-AGREE) the two token parsers of CompareNatural classify characters with the same named predicate. Does NOT decide that the zero counts are right, UTF-8 validity, the 'at most 4 bytes "
       "shorter' clause, or that CompareNatural is a total preorder.",
       BASE_NOTE,
       "DESIGN.md section 3, C20")
@@ -90,7 +90,7 @@ claim("C08", "other", "in-block pairing of departures with callback/size/count e
       "very (key, value), one size -= sizeOf(value) and one count-1, and none of these happens without a departure; an arrival is paired with count+1 and a size that includes "
       "sizeOf(val); size only ever receives a value proved <= limit by the exit edge of the eviction loop `for size > limit` (or decreases by a sizeOf result); a Put larger than "
       "the limit is refused before any effect; Has uses only Store.Check, which (transitively) has no effects; every lastAccess is a freshly ticked clock value. "
-      "(R-CLEAR-ALL) every return of Clear lies behind a branch edge on which count <= 0 holds. Does NOT decide which entry is evicted (needs a correct heap - C05/F1 - and a history argument) nor agreement with a reference LRU cache.",
+      "(R-CLEAR-ALL) every return of Clear lies behind a branch edge on which count <= 0 holds. (R-SIZEFN-FAITHFUL) the size function installed in the cache is the configured one, a closure returning exactly its result, or a constant default; an eviction helper that leaves the accounting to its callers is summarised and each call site held to it. Does NOT decide which entry is evicted (needs a correct heap - C05/F1 - and a history argument) nor agreement with a reference LRU cache.",
       BASE_NOTE + " Assumes the size function is non-negative.",
       "DESIGN.md section 3, C08")
 claim("C15", "model_checking", "explicit-state abstract execution of Quote and Join (callees inlined) over byte-class strings, composed with the tokenizer model extracted for C16 and with the POSIX reference transducer; exploration-based summaries of whole-string predicates; pool-discipline path rules",
@@ -112,7 +112,7 @@ claim("C01", "other", "provenance of clone's links; stop-flag path rule; orienta
       "walk and all four key descents (insert, remove, Get, pathTo), Min/Max, popMinRight, inorderAfter and the bulk loader agree with it, with comparator results tested by sign; "
       "popMinRight re-attaches the removed minimum's subtree; the root stored by Add/Replace/Remove derives from the modification's result on every changing path; New sorts and "
       "de-duplicates on every path to the bulk loader; the cached element count (Len, IsEmpty) changes only by +1 under a successful insertion, -1 under a successful removal, or to 0 "
-      "with the root dropped. (R-CMP-SIGN) every test of the comparison's result against a constant is a pure sign test (x == -1 and the like are violations: comparisons may return a-b); (R-REBUILD-USED) the subtree returned by the in-place rebuild is returned or stored in a link, never dropped. Does NOT decide that contents and results equal a reference set over histories, the max bookkeeping, or the DSW rebuild.",
+      "with the root dropped. (R-CMP-SIGN) every test of the comparison's result against a constant is a pure sign test (x == -1 and the like are violations: comparisons may return a-b); (R-REBUILD-USED) the subtree returned by the in-place rebuild is returned or stored in a link, never dropped. (R-LINK-STALE) a child link copied into another link was read after the last call that could rewrite it; (R-NIL-DROP) a link of a retained node is set to nil only when the old child is known nil, childless or re-attached; (R-READONLY) lookups, iteration, cursor construction and cloning store to no field of Tree or node; the cached count handed to the rebuild is final. Does NOT decide that contents and results equal a reference set over histories, the max bookkeeping, or the DSW rebuild.",
       BASE_NOTE + " Assumes iteration callbacks do not mutate the tree.",
       "DESIGN.md section 3, C01")
 claim("C03", "other", "dominance guard (Valid) on every cursor dereference; provenance of Clone's path; orientation table; sibling agreement (HasNext~Next, HasPrev~Prev); delegation rule for Inorder",
@@ -120,20 +120,20 @@ claim("C03", "other", "dominance guard (Valid) on every cursor dereference; prov
       "invalid path returns the receiver / false / the zero key - so operations on a nil or exhausted cursor are harmless no-ops; Clone copies the path (or returns the receiver "
       "only when invalid) so clones move independently; every navigation method reads the child sides binary-search-tree navigation requires relative to the in-order orientation; "
       "HasNext/HasPrev apply exactly the tests Next/Prev apply to findNext/findPrev's results, so they predict the move; Cursor.Inorder delegates to the subtree walker on the "
-      "current node and is stoppable. (R-ASCEND-GATED) Next (Prev) shortens or drops the path only on paths where a large-side (small-side) child link has been read, directly or in findNext/findPrev: the neighbour is an ancestor only when that subtree is empty. (R-CMP-SIGN) comparison results are tested by sign only. Does NOT decide that Next/Prev land on exactly the adjacent key for every tree shape, nor Cursor(key) validity.",
+      "current node and is stoppable. (R-ASCEND-GATED) Next (Prev) shortens or drops the path only on paths where a large-side (small-side) child link has been read, directly or in findNext/findPrev: the neighbour is an ancestor only when that subtree is empty. (R-CMP-SIGN) comparison results are tested by sign only. (R-PATH-COMPLETE) the search that builds a cursor's path appends the node on every trip round its loop; (R-PATH-FRESH) the path stored in a new Cursor is freshly allocated; (R-READONLY) read-only operations store to no field of Tree or node; HasNext/HasPrev give every answer other than false after consulting findNext/findPrev. Does NOT decide that Next/Prev land on exactly the adjacent key for every tree shape, nor Cursor(key) validity.",
       BASE_NOTE,
       "DESIGN.md section 3, C03")
 claim("C04", "other", "dominance guard (!= nil) with kill check on every use of the tree pointer; shared stree rules (descents, relink, cursor nil-safety); reset-first rule for Seek",
       "Decides: 'a zero Map behaves as an empty read-only map' - every use of Map.m / Iter.m as a (bound) method receiver in package omap is under a != nil guard of the same field "
       "(Map.Set exempt as documented), and the cursor methods omap calls on a possibly nil cursor are nil-safe (C03's guard rule re-run); the tree's key descents agree with "
       "iteration order and test comparator results by sign; deleting a two-child node re-attaches the successor's subtree; Seek invalidates the cursor before searching so a seek "
-      "past the last key leaves the iterator invalid. (R-NATURAL-ORDER) omap.New installs cmp.Compare, or a comparison that reaches it or handles x != x: a hand-written three-way comparison on < and > makes NaN equal to every key. (R-REBUILD-USED, R-ROOT-FLOW, shared with C01) the rebuilt subtree and the modified root are kept. Does NOT decide agreement with a reference sorted map, Seek's exact position, or iterator order.",
+      "past the last key leaves the iterator invalid. (R-NATURAL-ORDER) omap.New installs cmp.Compare, or a comparison that reaches it or handles x != x: a hand-written three-way comparison on < and > makes NaN equal to every key. (R-REBUILD-USED, R-ROOT-FLOW, shared with C01) the rebuilt subtree and the modified root are kept. (R-LINK-STALE, R-NIL-DROP, R-READONLY, R-PATH-FRESH, R-PATH-COMPLETE, shared with C01/C03) link edits of removal, read-only lookups and fresh cursor paths. Does NOT decide agreement with a reference sorted map, Seek's exact position, or iterator order.",
       BASE_NOTE,
       "DESIGN.md section 3, C04")
 claim("C11", "other", "provenance of span fields in Edit literals; index-variable side separation; opcode/field table; exhaustiveness of EditOp switches (typed AST)",
       "Decides structural clauses: every Edit the script builder creates takes X from a slice expression over lhs and Y from one over rhs ('the very spans', which value-comparing "
       "tests cannot see) and bounds each span with its own side's offsets; every Edit literal in packages slice and mdiff sets exactly the fields documented for its opcode; "
-      "every switch over EditOp in non-test code handles all four opcodes or has a default arm that panics or returns an error. (cursor families) a cursor family of the builder that indexes or bounds spans of an input never also indexes the common subsequence; (R-SIBLING-GUARD) guards before a comparison of an element of each input constrain both indices or neither. Does NOT decide that applying the script yields "
+      "every switch over EditOp in non-test code handles all four opcodes or has a default arm that panics or returns an error. (cursor families) a cursor family of the builder that indexes or bounds spans of an input never also indexes the common subsequence; (R-SIBLING-GUARD) guards before a comparison of an element of each input constrain both indices or neither. The run of kept elements is counted from the offset its Emit span starts at; no Edit is built under a boolean carried round the loop and never cleared; spans assigned after construction are held to the same provenance as literals. Does NOT decide that applying the script yields "
       "rhs, minimality (LCS length), canonical form, emptiness iff equal, or exact span bounds.",
       BASE_NOTE,
       "DESIGN.md section 3, C11")
@@ -143,7 +143,7 @@ claim("C13", "other", "who-may-write rule on Diff.Edits; provenance/aliasing rul
       "(so merging cannot write into Left, Right, the script or the other span); Unify edits the chunk's own edit list (not local copies) and keeps chunks apart only across a "
       "strict gap; every update of a chunk's left range has the mirrored update of its right range in the same block (in New: each range end advances together with that side's "
       "running position, by the number of X resp. Y lines of the edit); no chunk's edit list is a slice of the script; an index into Left/Right is bounded by its own length, not "
-      "only by the sibling's. (R-SIBLING-GUARD) where d.Left[p] is compared with d.Right[q] the dominating guards constrain both indices or neither. Does NOT decide that ranges and edits describe a correct "
+      "only by the sibling's. (R-SIBLING-GUARD) where d.Left[p] is compared with d.Right[q] the dominating guards constrain both indices or neither. (R-DROP-GUARDED) an edit leaves a chunk's list only under a test on its span's length or after its span was appended to its neighbour; (R-JOIN-LAST) no span is trimmed after the boundary context edits were joined in the same iteration; (R-ALLOC-BOUNDED) no allocation sized by the bare context count. Does NOT decide that ranges and edits describe a correct "
       "patch; context found by positional comparison across a neighbouring chunk (a data-dependent fault known from earlier dynamic work) has no structural signature.",
       BASE_NOTE,
       "DESIGN.md section 3, C13")
@@ -152,7 +152,7 @@ claim("C14", "other", "inconsistent-belief rule on the span parser's sentinel; w
       "known finding, see known_findings.json); the constants the Unified and Normal writers emit and the constants the readers classify by agree by value (line prefixes per "
       "opcode and payload offsets, '@@' tokens and span tags, file-header prefixes, name/time separator, change-command letters and their opcodes, '< ' '> ' '---'); both header "
       "timestamps are parsed with the writers' default format constant; every formatter and the reader handle all opcodes; overlapping context is trimmed from the correct end; "
-      "the git-patch reader does not reuse the backing array of chunks it already returned. (R-HEADER-SIDES) a header-writing call receives a (name, time) pair of FileInfo fields that the reader fills from one header line; (R-LINE-EXACT) the readers' line source removes nothing but the final newline (no bufio.Scanner with the default split, ReadLine, TrimSpace/TrimRight); (R-BOUND-SIDE, R-SIBLING-GUARD, shared with C13) context lines are indexed under guards on their own side. Does NOT decide byte-for-byte re-formatting or that a rendering applied by the "
+      "the git-patch reader does not reuse the backing array of chunks it already returned. (R-HEADER-SIDES) a header-writing call receives a (name, time) pair of FileInfo fields that the reader fills from one header line; (R-LINE-EXACT) the readers' line source removes nothing but the final newline (no bufio.Scanner with the default split, ReadLine, TrimSpace/TrimRight); (R-BOUND-SIDE, R-SIBLING-GUARD, shared with C13) context lines are indexed under guards on their own side. (R-SENTINEL-COMPLETE) a return carrying the sentinel error the git-patch reader tolerates is preceded by the store that records the chunk; (R-TIME-EXACT) the parsed header time is handed on as time.Parse produced it; (R-CONTEXT-FRESH, shared with C13) leading and trailing context are separate allocations. Does NOT decide byte-for-byte re-formatting or that a rendering applied by the "
       "published rules turns Left into Right; the spelling of empty ranges (a conformance fault known from earlier dynamic work) has no structural signature and is not decided.",
       BASE_NOTE,
       "DESIGN.md section 3, C14")
